@@ -582,6 +582,10 @@ func (r *runner) step(op string) string {
 			r.fail("right-witness-accepts-other-root", fmt.Sprintf("size %d index %d", len(r.hashes), i))
 		}
 		return "w=" + hexList(wit) + " root=" + corr.Hex(got)
+	case "rwraw":
+		// CalculateRootFromRightWitness on arbitrary (possibly malformed) input: must terminate
+		i, _ := strconv.ParseUint(w[1], 10, 64)
+		return corr.Hex(rmt.CalculateRootFromRightWitness(i, unHexList(w[2]), unHexList(w[3])))
 	case "specpath":
 		pos, _ := strconv.Atoi(w[1])
 		if pos >= len(r.hashes) {
